@@ -108,6 +108,9 @@ func (r *Mqueue) Compare(other Rule) int {
 	if res := compare(r.Label, o.Label); res != 0 {
 		return res
 	}
+	if res := compare(r.Name, o.Name); res != 0 {
+		return res
+	}
 	return r.Qualifier.Compare(o.Qualifier)
 }
 
